@@ -143,9 +143,22 @@ func zzC19_demux() {
 	for s := 0; s < ns; s++ {
 		total += len(ids[s])
 	}
+	// replies are written straight after the read, or (deferReplies) only after the next message has
+	// been read, when the connection's current read stream is another one
+	deferReplies := zzFlag("deferReplies")
+	var pending *Message
+	reply := func(m *Message) {
+		nw := len(be.writes)
+		_, werr := m.Answer(2001).WriteTo(msc)
+		vAssert(werr == nil && len(be.writes) == nw+1 && uint(be.writes[nw].stream) == m.MessageStream(), "replies built from a message are written to that same stream")
+	}
 	for i := 0; i < total+1; i++ {
 		msc.ResetCurrentStream()
 		m, err := ReadMessage(msc, d)
+		if pending != nil {
+			reply(pending)
+			pending = nil
+		}
 		if err != nil {
 			vAssert(i == total, "no message is lost: the loop ends only after every message was delivered")
 			break
@@ -175,9 +188,11 @@ func zzC19_demux() {
 		}
 		got[s] = append(got[s], m.Header.EndToEndID)
 		// the reply goes to the stream the request arrived on
-		nw := len(be.writes)
-		_, werr := m.Answer(2001).WriteTo(msc)
-		vAssert(werr == nil && len(be.writes) == nw+1 && int(be.writes[nw].stream) == st, "replies built from a message are written to that same stream")
+		if deferReplies {
+			pending = m
+		} else {
+			reply(m)
+		}
 	}
 	for s := 0; s < ns; s++ {
 		vAssert(len(got[s]) == len(ids[s]), "every stream's messages are all delivered")
